@@ -246,7 +246,7 @@ func scriptBytes(rng *rand.Rand, tag string) []byte {
 func (g *pkgGen) config(i int) genOut {
 	var out genOut
 	c := &out.cfg
-	c.Name = g.pick([]string{"foo", "my-app", "lib_x+1", "a.b", "app" + fmt.Sprint(i)})
+	c.Name = g.pick([]string{"foo", "my-app", "lib_x+1", "a.b", "app" + fmt.Sprint(i), "MyApp", "Lib-X11.Tool"})
 	c.Arch = g.pick(goArches)
 	if g.chance(12) {
 		c.Platform = g.pick([]string{"darwin", "freebsd"})
@@ -1003,6 +1003,8 @@ func cmdPkg(prop, tier string, seed int64, out, statsOut, replay string) {
 		case "C09":
 			genC09Subsets(w, st, g.rng, true)
 			n = n / 3
+		case "C02":
+			genC02Shapes(w, st)
 		case "C03":
 			genC03Shapes(w, st)
 		case "C04":
